@@ -667,7 +667,7 @@ class Judge:
                             where, f['name'], 'nullable' if nullable else 'not nullable%s' % (
                                 ' (defaulted)' if f.get('default') is not None else ''),
                             '[optional]' if optional else 'required'),
-                            'optional-flag', 'nullable' if nullable else
+                            'optional-flag', ('nullable-through-alias' if f['type'][0] == 'alias' else 'nullable') if nullable else
                             ('defaulted' if f.get('default') is not None else 'required'))
                     self.js_type_text(ty, f['type'], n, where + ' field ' + f['name'], 'field')
                 extra = [p for p in props if p not in wnames and p != '.tag']
@@ -963,6 +963,8 @@ class Judge:
                             if optional != want_opt:
                                 why = 'nullable' if idx.is_nullable(fld['type']) else \
                                     'defaulted' if fld.get('default') is not None else 'required'
+                                if why == 'nullable' and fld['type'][0] == 'alias':
+                                    why = 'nullable-through-alias'     # stone's alias-of-nullable defect (DESIGN 5)
                                 self.viol('tsd-types', '%s: field %s is %s but declared %s' % (
                                     where, fld['name'], why, 'optional' if optional else 'required'), 'optional-flag', why)
                             t = fld['type'][1] if fld['type'][0] == 'nullable' else fld['type']
@@ -1447,7 +1449,8 @@ def run(case, rec):
 def cases(draw):
     r = draw(st.integers(0, 99))
     schema = 'generic' if r < 30 else 'client' if r < 50 else 'plain'
-    return {'api': draw(gen.api_models(gen.Cfg(**dict(C16_CFG, schema=schema))))}
+    # aliases of nullable types in one spec out of four (stone's backends disagree on them: known finding)
+    return {'api': draw(gen.api_models(gen.Cfg(**dict(C16_CFG, schema=schema, nullable_aliases=draw(st.integers(0, 3)) == 0))))}
 
 
 def floors(ctx, classes, evaluations, notes):
